@@ -43,6 +43,8 @@ def run(ctx):
                 ctx.violation("the three narrowed values are not (dod, coordinate 2E-2, tolerance 5)", req, observed=vals)
         if d.get("status") != "ok":
             continue
+        if not SC.finite([d["x"], d["u"], d["v"], d["l"], d["inv"], d["uvec"]]):
+            ctx.count("nonfinite_dd_skipped"); continue
         x = [ddf(p) for p in d["x"]]
         if any(t2 <= 0 for t2 in x):
             continue
